@@ -37,6 +37,10 @@ type engine struct {
 	outs []*OutRec
 	ids  map[string]int // join kinds: output count per event id (for pause waits)
 
+	out     *monOutput
+	held    []heldEv // events the output has not let go of yet
+	lastOut time.Time
+
 	commits atomic.Int64
 }
 
@@ -56,17 +60,32 @@ type monOutput struct {
 	ctl pipeline.OutputPluginController
 }
 
+// heldEv: an event the output has received but not yet encoded "for real".
+type heldEv struct {
+	ev     *pipeline.Event
+	rec    *OutRec
+	early  string // encoding taken inside Out
+	stream string
+	src    uint64
+}
+
 func (o *monOutput) Start(_ pipeline.AnyConfig, params *pipeline.OutputPluginParams) {
 	o.ctl = params.Controller
 }
 func (o *monOutput) Stop() {}
 
-// Out records a COPY of the encoded event (insane-json strings alias memory
-// that is reused as soon as the event is committed) and commits at once.
+// Out behaves like a batching output: it takes a first look at the event
+// (a COPY of the encoded event - insane-json strings alias memory that is
+// reused as soon as the event is committed), then keeps the *pipeline.Event
+// itself un-encoded until OutHold later events of any stream have arrived (or
+// the output has been idle for a while), and only then encodes it again - that
+// second encoding is what the oracle judges - and commits it. An event must not
+// change while an output holds it: any difference between the two encodings is
+// reported.
 func (o *monOutput) Out(ev *pipeline.Event) {
 	js := string(ev.Root.Encode(nil))
 	info := pipeline.VerifInfo(ev)
-	rec := &OutRec{Src: uint64(ev.SourceID), Stream: strings.Clone(info.StreamName), JSON: js}
+	rec := &OutRec{Src: uint64(ev.SourceID), Stream: strings.Clone(info.StreamName)}
 	e := o.eng
 	id := ""
 	if e.cs.Kind != "k8s" {
@@ -74,6 +93,8 @@ func (o *monOutput) Out(ev *pipeline.Event) {
 			id = strings.Clone(n.AsString())
 		}
 	}
+	h := heldEv{ev: ev, rec: rec, early: js, stream: rec.Stream, src: rec.Src}
+	var release []heldEv
 	e.mu.Lock()
 	rec.N = len(e.outs)
 	rec.T = e.now()
@@ -81,8 +102,74 @@ func (o *monOutput) Out(ev *pipeline.Event) {
 	if id != "" {
 		e.ids[id]++
 	}
+	e.held = append(e.held, h)
+	e.lastOut = time.Now()
+	switch {
+	case e.cs.OutBatch:
+		if len(e.held) > e.cs.OutHold {
+			release, e.held = e.held, nil
+		}
+	default:
+		for len(e.held) > e.cs.OutHold {
+			release = append(release, e.held[0])
+			e.held = e.held[1:]
+		}
+	}
+	seen := len(e.outs)
 	e.mu.Unlock()
-	o.ctl.Commit(ev)
+	o.release(release, seen)
+}
+
+// release: the late look at the events, then Commit.
+func (o *monOutput) release(hs []heldEv, seen int) {
+	if len(hs) == 0 {
+		return
+	}
+	type late struct {
+		js, changed string
+	}
+	ls := make([]late, len(hs))
+	for i, h := range hs {
+		js := string(h.ev.Root.Encode(nil))
+		ls[i].js = js
+		info := pipeline.VerifInfo(h.ev)
+		switch {
+		case js != h.early:
+			ls[i].changed = "encoding"
+		case uint64(h.ev.SourceID) != h.src || info.StreamName != h.stream:
+			ls[i].changed = fmt.Sprintf("source/stream: %d/%s at Out, %d/%s at commit", h.src, h.stream, uint64(h.ev.SourceID), info.StreamName)
+		}
+	}
+	e := o.eng
+	e.mu.Lock()
+	for i, h := range hs {
+		h.rec.JSON = ls[i].js
+		h.rec.HeldFor = seen - h.rec.N - 1
+		if ls[i].changed != "" {
+			h.rec.Changed = ls[i].changed
+			h.rec.JSONAtOut = h.early
+		}
+	}
+	e.mu.Unlock()
+	for _, h := range hs {
+		o.ctl.Commit(h.ev)
+	}
+}
+
+// flushIdle lets go of everything that is held when no event has arrived for
+// `idle` (the flush time-out of a batching output). Liveness only: nothing is
+// judged by it.
+func (e *engine) flushIdle(idle time.Duration) {
+	e.mu.Lock()
+	var hs []heldEv
+	if len(e.held) > 0 && time.Since(e.lastOut) >= idle {
+		hs, e.held = e.held, nil
+	}
+	seen := len(e.outs)
+	e.mu.Unlock()
+	if e.out != nil {
+		e.out.release(hs, seen)
+	}
 }
 
 func (e *engine) seenID(id string) bool {
@@ -109,6 +196,7 @@ func chainOf(cs *Case) []map[string]any {
 		if cs.JoinMax > 0 {
 			a["max_event_size"] = cs.JoinMax
 		}
+		addMatch(cs, a)
 		chain = append(chain, a)
 	case "join_template":
 		a := map[string]any{"type": "join_template", "field": cs.Field}
@@ -120,6 +208,7 @@ func chainOf(cs *Case) []map[string]any {
 		if cs.JoinMax > 0 {
 			a["max_event_size"] = cs.JoinMax
 		}
+		addMatch(cs, a)
 		chain = append(chain, a)
 	case "k8s":
 		chain = append(chain, map[string]any{"type": "k8s-multiline", "split_event_size": cs.SplitEventSize, "offsets_file": "/nonexistent/offsets.yaml"})
@@ -146,8 +235,10 @@ func runCase(cs Case) (res Result) {
 	}
 
 	eng := &engine{cs: &cs, ids: map[string]int{}}
+	eng.out = &monOutput{eng: eng}
 	settings := &pipeline.Settings{
-		Decoder: "json", Capacity: cs.Capacity, AvgEventSize: cs.AvgSize, MetaCacheSize: 32,
+		// the events held by the output come on top of the pipeline's capacity
+		Decoder: "json", Capacity: cs.Capacity + cs.OutHold, AvgEventSize: cs.AvgSize, MetaCacheSize: 32,
 		MaintenanceInterval: 5 * time.Second,
 		EventTimeout:        time.Duration(cs.EventTimeoutMs) * time.Millisecond,
 		Antispam:            pipeline.AntispamSettings{Threshold: pipeline.DefaultAntispamThreshold, MaintenanceInterval: 5 * time.Second},
@@ -176,11 +267,27 @@ func runCase(cs Case) (res Result) {
 	}
 	p.SetOutput(&pipeline.OutputPluginInfo{
 		PluginStaticInfo:  &pipeline.PluginStaticInfo{Type: "verif_c15_output"},
-		PluginRuntimeInfo: &pipeline.PluginRuntimeInfo{Plugin: &monOutput{eng: eng}},
+		PluginRuntimeInfo: &pipeline.PluginRuntimeInfo{Plugin: eng.out},
 	})
 	p.VerifSetPoolWakeup(50 * time.Millisecond)
 	eng.t0 = time.Now()
+	eng.lastOut = eng.t0
 	p.Start()
+	// the flush time-out of the holding output
+	flushStop := make(chan struct{})
+	var flushWG sync.WaitGroup
+	flushWG.Add(1)
+	go func() {
+		defer flushWG.Done()
+		for {
+			select {
+			case <-flushStop:
+				return
+			case <-time.After(3 * time.Millisecond):
+				eng.flushIdle(15 * time.Millisecond)
+			}
+		}
+	}()
 
 	// ---- feeders: a source is fed by exactly one goroutine, in order ----
 	feeders := cs.Feeders
@@ -351,6 +458,9 @@ func runCase(cs Case) (res Result) {
 		}
 		time.Sleep(2 * time.Millisecond)
 	}
+	close(flushStop)
+	flushWG.Wait()
+	eng.flushIdle(0)
 	stopped := make(chan struct{})
 	go func() { p.Stop(); close(stopped) }()
 	select {
@@ -426,6 +536,27 @@ func judge(cs *Case, lines [][]*Line, outs []*OutRec, res *Result) {
 		oe := &outEv{rec: r}
 		var src int
 		var stream string
+		st.add("events_held_for_total", int64(r.HeldFor))
+		if r.HeldFor > 0 {
+			st.add("events_read_late", 1)
+		}
+		if r.Changed != "" {
+			// an event must not change while an output holds it
+			st.add("events_changed_while_held", 1)
+			what := fmt.Sprintf("output event %d (source %d stream %s) changed between Out and Commit while the output held it (%d later events arrived meanwhile): %s", r.N, r.Src, r.Stream, r.HeldFor, r.Changed)
+			w := map[string]any{"held_for_events": r.HeldFor, "out_hold": cs.OutHold, "batch": cs.OutBatch}
+			if r.Changed == "encoding" {
+				d := 0
+				for d < len(r.JSON) && d < len(r.JSONAtOut) && r.JSON[d] == r.JSONAtOut[d] {
+					d++
+				}
+				what += fmt.Sprintf(": first difference at byte %d of %d/%d", d, len(r.JSONAtOut), len(r.JSON))
+				w["first_difference_at"] = d
+				w["json_at_out"] = short(r.JSONAtOut[max0(d-40):], 300)
+				w["json_at_commit"] = short(r.JSON[max0(d-40):], 300)
+			}
+			add(Viol{Sig: kindSig(cs) + ":output-event-changed-before-commit", What: what, Witness: w})
+		}
 		if cs.Kind == "k8s" {
 			oe.mem = map[string]string{}
 			ms, err := splitObject(r.JSON)
@@ -547,8 +678,8 @@ func judge(cs *Case, lines [][]*Line, outs []*OutRec, res *Result) {
 		res.Fingerprints = append(res.Fingerprints, f)
 	}
 	sort.Strings(res.Fingerprints)
-	res.Fingerprints = append(res.Fingerprints, fmt.Sprintf("case/%s/%s/procs=%d/single=%v/timeout=%d/max=%d/split=%d/pipemax=%d/cut=%v/pre=%v/streams=%d/src=%d",
-		cs.Kind, cs.Family, cs.Procs, cs.SingleProc, cs.EventTimeoutMs, cs.JoinMax, cs.SplitEventSize, cs.PipeMax, cs.CutOff, cs.PreDiscard, cs.Streams, cs.Sources))
+	res.Fingerprints = append(res.Fingerprints, fmt.Sprintf("case/%s/%s/procs=%d/single=%v/timeout=%d/max=%d/split=%d/pipemax=%d/cut=%v/pre=%v/streams=%d/src=%d/hold=%d/batch=%v/match=%s/shape=%s",
+		cs.Kind, cs.Family, cs.Procs, cs.SingleProc, cs.EventTimeoutMs, cs.JoinMax, cs.SplitEventSize, cs.PipeMax, cs.CutOff, cs.PreDiscard, cs.Streams, cs.Sources, cs.OutHold, cs.OutBatch, cs.Match, cs.RunShape))
 	if strings.HasSuffix(cs.Name, "-0") {
 		var sample []any
 		for _, k := range keys[:1] {
